@@ -20,7 +20,7 @@
 (*     C02_TrailersEarly C02_EndMissing                                    *)
 (*     C03_Strand C03_Starved                                              *)
 (* The same Observe is (a) model checked against Level I (LoopyMC: Level I *)
-(* never trips a clause, four one-line spec mutations do) and (b) applied  *)
+(* never trips a clause, five one-line spec mutations do) and (b) applied  *)
 (* by LoopyTrace to the frames the real loopyWriter wrote.                 *)
 (*                                                                         *)
 (* Inputs are records [k, s, n, b, h]:                                     *)
@@ -35,6 +35,9 @@
 (*   wu       s, n      incomingWindowUpdate (s = 0: connection)           *)
 (*   settings n         incomingSettings{INITIAL_WINDOW_SIZE = n}          *)
 (*   noise    n         1 ping, 2 outgoingWindowUpdate, 3 outgoingSettings *)
+(*   hdr / data / trailers may also arrive for a stream whose cleanupStream *)
+(*   or earlyAbortStream was handled before (items that lost a race in the  *)
+(*   control buffer): the writer must drop them.                            *)
 (*   pd                 one call of processData                            *)
 (* Frames are records [t, s, len, f, runs]: f = END_STREAM (DATA, HEADERS) *)
 (* or ACK (SETTINGS, PING); runs = the DATA payload as maximal runs        *)
@@ -117,7 +120,8 @@ Step(m, in, perm, base) ==
   CASE in.k = "open" ->
          R([m EXCEPT !.estd = @ \cup {s}, !.st[s] = "empty", !.itl[s] = <<>>, !.out[s] = 0],
            IF m.srv THEN <<>> ELSE HdrFrames(s, in.h, FALSE), FALSE)
-    [] in.k = "hdr" -> R(m, IF s \in m.estd THEN HdrFrames(s, in.h, FALSE) ELSE <<>>, FALSE)
+    \* serverHeaderHandler: nothing is written for a stream that is no longer established
+    [] in.k = "hdr" -> R(m, IF s \in m.estd \/ Mutant = 5 THEN HdrFrames(s, in.h, FALSE) ELSE <<>>, FALSE)
     [] in.k = "data" ->
          IF s \notin m.estd THEN R(m, <<>>, FALSE)
          ELSE LET m1 == [m EXCEPT !.itl[s] = Append(@, DItem(in.h, in.n, in.b, base))]
@@ -188,9 +192,13 @@ ObsIn(g, in) ==
   LET s == in.s IN
   IF in.k \in {"open", "hdr", "data", "trailers", "cleanup", "abort"} /\ ~Known(g, s) THEN Note(g, TRUE, "UnknownStreamInput")
   ELSE CASE in.k = "open" -> IF g.afin[s] = "idle" THEN [g EXCEPT !.afin[s] = "open"] ELSE Note(g, TRUE, "ReopenedStream")
+    \* A write / header item that lost the race against the stream's cleanupStream (deadline timer,
+    \* reader goroutine) reaches the writer after the stream is gone: it is not application data the
+    \* peer may expect, and whatever frame it produces is judged by C02_FrameAfterEnd.
     [] in.k = "data" -> IF g.afin[s] = "open"
                           THEN [g EXCEPT !.app[s] = @ + in.h + in.n, !.afin[s] = IF in.b THEN "last" ELSE @]
-                          ELSE Note(g, TRUE, "WriteOnClosedStream")
+                          ELSE IF g.afin[s] = "closed" \/ (g.afin[s] = "last" /\ g.wfin[s] # "none") THEN g
+                          ELSE Note(g, TRUE, "WriteOnUnopenedOrFinishedStream")
     [] in.k = "trailers" -> IF g.afin[s] = "open" THEN [g EXCEPT !.afin[s] = "last"] ELSE g
     [] in.k \in {"cleanup", "abort"} -> [g EXCEPT !.afin[s] = "closed"]
     [] in.k = "wu" -> IF s = 0 THEN [g EXCEPT !.conn = @ + in.n]
@@ -226,7 +234,8 @@ ObsFrame(g, f) ==
                   <<"C01", f.len > MaxFrame, "C01_HeaderFragSize">>,
                   <<"C02", g.wfin[s] # "none", "C02_FrameAfterEnd">>,
                   <<"C02", f.f /\ g.wire[s] # g.app[s], "C02_TrailersEarly">> >>)
-          g2 == Note(g1, f.f /\ g.afin[s] = "open", "TrailersNotRequested")
+          g2 == Note(Note(g1, f.f /\ g.afin[s] = "open", "TrailersNotRequested"),
+                     ~f.f /\ g.afin[s] = "closed" /\ g.wfin[s] = "none", "HeadersAfterSilentCleanup")
       IN IF f.f /\ g.wfin[s] = "none" THEN [g2 EXCEPT !.wfin[s] = "trailers"] ELSE g2
     [] f.t = "CONTINUATION" -> Chk(g, << <<"C01", f.len > MaxFrame, "C01_HeaderFragSize">> >>)
     [] f.t = "RST_STREAM" ->
